@@ -371,6 +371,23 @@ PROPS["C16"] = dict(_c16b, kinds=["build", "lib13"], generate=_gen16,
                     proj=lambda c, l, _p=_c16b["proj"]: (l if c.kind == "lib13" else _p(c, l)),
                     nontrivial=lambda c, io, _n=_c16b["nontrivial"]: (len(c.body) >= 3 if c.kind == "lib13" else _n(c, io)))
 
+# C18: the built-in file checkers are where checker errors come from in practice (OS errors other than NotFound): add the
+# real-file stream, whose oracle demands that such errors are returned by stamp/check and never swallowed
+_c18b = PROPS["C18"]
+_g18 = lib_stream("lib13", GL.lib13_fixed(), GL.gen13, 100, 3000)
+
+
+def _gen18(rng, tier, seed, _b=_c18b["generate"]):
+    c1, s1 = _b(rng, tier, seed)
+    c2, s2 = _g18(rng, tier, seed)
+    return c1 + c2, dict(s1, **{"lib13_" + k: v for k, v in s2.items()})
+
+
+PROPS["C18"] = dict(_c18b, kinds=["build", "lib13"], generate=_gen18,
+                    proj=lambda c, l, _p=_c18b["proj"]: (l if c.kind == "lib13" else _p(c, l)),
+                    oracle=lambda c, io, _o=_c18b["oracle"]: (GL.oracle13(c, io) if c.kind == "lib13" else _o(c, io)),
+                    nontrivial=lambda c, io, _n=_c18b["nontrivial"]: (len(c.body) >= 3 if c.kind == "lib13" else _n(c, io)))
+
 # what is stated but not (yet) proved in Lean, per property: covered only by the correspondence and the oracle
 STATED_NOT_PROVED = {
     "C01": ["programs with writes are covered for STATIC roles (C01_full_*: WellFormedBody, WriteExact; mixed histories with bottom-up builds: C01_full_mixed_history under Reflexive, shown necessary by C01_full_mixed_history_false); role-changing programs with writes: no theorem (findings K3/K4)",
